@@ -232,8 +232,58 @@ func (it *Interp) strCompare(op token.Token, a, b *StrV) *Term {
 			return Not(lt)
 		}
 	}
+	lt := it.strLessOpaque(a, b)
+	switch op {
+	case token.LSS:
+		return lt
+	case token.LEQ:
+		return Not(it.strLessOpaque(b, a))
+	case token.GTR:
+		return it.strLessOpaque(b, a)
+	case token.GEQ:
+		return Not(lt)
+	}
 	it.fail("ordered comparison of opaque strings unsupported")
 	return nil
+}
+
+// strLessOpaque: the lexicographic order on opaque strings, abstracted to an uninterpreted strict total order (irreflexive,
+// asymmetric, total on distinct strings, transitive - the axioms are instantiated for the terms compared on this path;
+// two structured operands are compared exactly elsewhere). An over-approximation: nothing relates the order to the bytes.
+func (it *Interp) strLessOpaque(a, b *StrV) *Term {
+	ta, tb := it.toA(a), it.toA(b)
+	it.strLenTerm(ta)
+	it.strLenTerm(tb)
+	lt := func(x, y *Term) *Term { return App("strlt", SBool, x, y) }
+	for _, t := range []*Term{ta, tb} {
+		known := false
+		for _, o := range it.p.ordTerms {
+			if o == t {
+				known = true
+			}
+		}
+		if known {
+			continue
+		}
+		if len(it.p.ordTerms) >= 8 {
+			it.fail("ordered comparison of more than 8 opaque strings on one path")
+		}
+		it.p.assertAxiom(Not(lt(t, t)))
+		for _, o := range it.p.ordTerms {
+			it.p.assertAxiom(Not(And(lt(t, o), lt(o, t))))
+			it.p.assertAxiom(Eq(Eq(t, o), And(Not(lt(t, o)), Not(lt(o, t)))))
+			for _, q := range it.p.ordTerms {
+				if q == o {
+					continue
+				}
+				for _, tr := range [][3]*Term{{t, o, q}, {o, t, q}, {o, q, t}} {
+					it.p.assertAxiom(Implies(And(lt(tr[0], tr[1]), lt(tr[1], tr[2])), lt(tr[0], tr[2])))
+				}
+			}
+		}
+		it.p.ordTerms = append(it.p.ordTerms, t)
+	}
+	return lt(ta, tb)
 }
 
 // bytesLess returns (a<b, a==b) lexicographically for structured byte strings.
